@@ -29,7 +29,7 @@ def run(ck):
         "built from scope().from_root(). JSON validity/escaping itself is serde_json's contract and is NOT decided.")
     ck.assumptions += ["serde_json produces valid JSON for every input it accepts", "field names/values reach the visitor as C10 establishes"]
     ck.rule("C14.R1", "only the serializer writes record content; one terminating newline", floor=5)
-    ck.rule("C14.R2", "later record calls merge into the stored object; replaced only on success", floor=4)
+    ck.rule("C14.R2", "later record calls merge into the stored object (owned keys); replaced only on success", floor=6)
     ck.rule("C14.R3", "span list is root to leaf", floor=1)
     r1(ck, F)
     r2(ck, F)
@@ -140,6 +140,27 @@ def r2(ck, F):
     else:
         ck.bad("C14.R2", "add_fields: the stored string is replaced only when re-serialisation succeeded", where(b.raw["sp"]),
                "`current.fields = new` is not control-dependent on finish() returning Ok: a failed merge would lose or corrupt earlier fields", fn=b.path)
+    # every re-parse of stored span fields uses owned keys: a field name that needs escaping cannot be deserialized into a
+    # borrowed &str, so the parse (and with it the merge, or the span's fields in the output) would fail for such names
+    nre = 0
+    for x in F.body_list:
+        if "fmt/format/json.rs" not in x.span:
+            continue
+        for bb, t in x.calls():
+            c = t["callee"]
+            if not c.get("path", "").startswith("serde_json::de::from_str"):
+                continue
+            nre += 1
+            target = " ".join(c.get("targs", []))
+            key = "%s: stored fields are re-parsed into a type with owned keys" % x.path[-60:]
+            import re as _re
+            if _re.search(r"Map<&('[a-z_]+ )?str\b", target):
+                ck.bad("C14.R2", key, where(t["sp"]), "serde_json::from_str::<%s>: borrowed &str keys cannot hold a field name that needs JSON escaping; the parse fails and "
+                       "the fields recorded so far (or later) are lost" % target[:120], fn=x.path)
+            else:
+                ck.ok("C14.R2", key, fn=x.path, detail=target[:100])
+    if nre < 2:
+        ck.bad("C14.R2", "re-parse sites of stored span fields", J, "found %d serde_json::from_str sites in the JSON formatter (expected add_fields and SerializableSpan)" % nre)
     adt = F.adts.get(J + "JsonVisitor")
     if ck.anchor("C14.R2", "JsonVisitor", adt):
         ty = {f["name"]: f["ty"] for f in adt["variants"][0]["fields"]}.get("values", "")
